@@ -32,10 +32,11 @@ type Style struct {
 	SpreadRules      bool   // (multi-line only) one rule per line inside the rule object
 	QuoteNames       bool   // rule names in quotes
 	TrailingComma    bool   // trailing comma inside the rule object
-	Comments         int    // 0 none, 1 '#' line comments on own lines, 2 also '###' blocks, 3 end-of-line '#' comments as well
+	Comments         int    // 0 none, 1 '#' line comments on own lines, 2 also '###' blocks, 3 end-of-line '#' comments as well, 4 end-of-line '#' comments only (on every line)
 	MixedAnn         int    // >0: annotations alternate between the inline and the multi-line form (1: first inline, 2: first multi-line)
 	AutoItemNotes    bool   // enum items inside multi-line annotations get an inline note each (whatever the model says)
 	EmptyAnn         int    // >0: every EmptyAnn-th value without rules and note gets an empty "//" annotation
+	AutoNotes        int    // >0: every AutoNotes-th value without a note of its own gets one
 	JoinLines        bool   // several properties on one line and one-line containers where no annotation is involved (ignored when comments or empty annotations are on)
 	NoteNextLine     bool   // note-only annotations of values that no comma follows go to the next line (every other one)
 	BlankLines       bool   // blank lines between properties
@@ -52,6 +53,7 @@ type printer struct {
 	st      *Style
 	cc      int  // comment counter
 	ea      int  // empty-annotation counter
+	an      int  // auto-note counter
 	hn      int  // enum head-note counter
 	nn      int  // next-line-note counter
 	ann     int  // annotation counter (MixedAnn)
@@ -78,7 +80,7 @@ func (p *printer) indent(level int) {
 }
 
 func (p *printer) leadingComments(level int) {
-	if p.st.Comments >= 1 {
+	if p.st.Comments >= 1 && p.st.Comments <= 3 {
 		p.cc++
 		if p.cc%2 == 1 {
 			p.indent(level)
@@ -103,7 +105,7 @@ func (p *printer) leadingComments(level int) {
 func (p *printer) eolComment() {
 	if p.st.Comments >= 3 {
 		p.cc++
-		if p.cc%2 == 0 {
+		if p.cc%2 == 0 || p.st.Comments == 4 {
 			p.w(" # eol comment")
 		}
 	}
@@ -112,7 +114,15 @@ func (p *printer) eolComment() {
 // annotation writes " // {..} - note" (or the multi-line form) when the node has rules or a note.
 func (p *printer) annotation(n *ref.SNode, level int) {
 	n.AnnBegin = -1
-	if len(n.Rules) == 0 && n.Note == "" {
+	note := n.Note
+	if note == "" && p.st.AutoNotes > 0 {
+		// a note the model does not have (notes do not change the meaning of a schema)
+		p.an++
+		if p.an%p.st.AutoNotes == 0 {
+			note = []string{"auto note", "x - y", "note with {braces}"}[(p.an/p.st.AutoNotes)%3]
+		}
+	}
+	if len(n.Rules) == 0 && note == "" {
 		if p.st.EmptyAnn > 0 && !p.st.MultiLine {
 			// an annotation without rules and without a note: "//" up to the end of the line
 			p.ea++
@@ -139,12 +149,12 @@ func (p *printer) annotation(n *ref.SNode, level int) {
 	p.w(" ")
 	if len(n.Rules) > 0 {
 		p.ruleObject(n.Rules, multi && p.st.SpreadRules, level)
-		if n.Note != "" {
+		if note != "" {
 			p.w(" - ")
-			p.w(n.Note)
+			p.w(note)
 		}
 	} else {
-		p.w(n.Note)
+		p.w(note)
 	}
 	if multi {
 		p.w(" */")
@@ -367,7 +377,7 @@ func (p *printer) node(n *ref.SNode, level int, comma bool) {
 
 // joining: the JoinLines style is on and nothing else writes to the ends of lines.
 func (p *printer) joining() bool {
-	return p.st.JoinLines && p.st.Comments == 0 && p.st.EmptyAnn == 0
+	return p.st.JoinLines && p.st.Comments == 0 && p.st.EmptyAnn == 0 && p.st.AutoNotes == 0
 }
 
 func bareScalar(n *ref.SNode) bool {
